@@ -223,7 +223,7 @@ def check_clipped_stream(R, F, cfg, q, m):
                 it = pix[0].ev.args[1]
                 nths = [s for s in evs if s.cls == "ITER_NTH"]
                 inner = it.fields[0] if isinstance(it, Agg) and it.name in ("core::iter::take", "core::iter::take_while") else None
-                src_ok = lambda v: isinstance(v, Agg) and v.name == "core::iter::into_iter" and isinstance(v.fields[0], SymV) and v.fields[0].name == "colors"
+                src_ok = lambda v: isinstance(v, Agg) and v.name == "core::iter::into_iter" and isinstance(v.fields[0], SymV) and v.fields[0].name.split("#")[0].rstrip("'") == "colors"
                 if src_ok(inner):
                     npaths["unclipped"] += 1
                     same = all(f.entails_ge0(a - b) is not None and f.entails_ge0(b - a) is not None for a, b in ((ix, ax), (iy, ay), (iw, aw), (ih, ah)))
@@ -260,7 +260,7 @@ def check_clipped_stream(R, F, cfg, q, m):
                 R.ob("C04-per-row", "%s|clipped|take-skip|%r" % (otag, want),
                      src_ok(tsf["iter"]) and f.simplify(tsf["take"].poly()) == iw and f.simplify(tsf["take_remaining"].poly()) == iw
                      and f.simplify(tsf["skip"].poly()) == aw - iw,
-                     "per row the stream must take iw = %r colours and skip aw - iw = %r; got take=%r remaining=%r skip=%r"
-                     % (iw, aw - iw, tsf["take"], tsf["take_remaining"], tsf["skip"]))
+                     "per row the stream must take iw = %r colours and skip aw - iw = %r from the caller's stream; got take=%r remaining=%r skip=%r over %r"
+                     % (iw, aw - iw, tsf["take"], tsf["take_remaining"], tsf["skip"], tsf["iter"]))
             R.ob("C04-paths", "%s|paths" % otag, npaths["unclipped"] >= 1 and npaths["clipped"] >= 1,
                  "expected an unclipped path and at least one clipped path, found %s" % npaths)
